@@ -119,8 +119,21 @@ static vf::Verdicts eval(const Spec &s, vf::Ctx &ctx) {
     int steps = std::max(0, nLB - 1);
     double growth = std::log10(params.global.penalty.initialValue) + steps * std::log10(params.global.penalty.updateFactor) -
                     std::log10(params.global.penalty.cutoffDistance) - steps * std::log10(params.global.penalty.cutoffDistanceUpdateFactor);
-    fail(diverged && growth >= 25.0 ? "global-placement-throws:diverged-penalty-overflow" : "global-placement-throws",
-         r.what + " after " + std::to_string(steps) + " lower-bound steps (log10 penalty/cutoff = " + std::to_string(growth) + ")");
+    // The approximation and cutoff distances follow geometric schedules too (update factors in [0.8, 1.2]).  The property
+    // keeps these distances away from the single-precision limits (it names 1e-6 as a value at which the float solver
+    // returns NaN and which nobody relies on): a run whose schedule has shrunk the effective distance below 1e-6 (in the
+    // parameter's unit) by the step that diverged has left the domain, and its error is not a violation.
+    double approx = std::log10(params.global.continuousModel.approximationDistance) +
+                    steps * std::log10(params.global.continuousModel.approximationDistanceUpdateFactor);
+    double cutoff = std::log10(params.global.penalty.cutoffDistance) + steps * std::log10(params.global.penalty.cutoffDistanceUpdateFactor);
+    if (diverged && (approx < -6.0 || cutoff < -6.0)) {
+      ctx.count("runs_that_diverged_after_their_schedule_left_the_domain(effective_distance<1e-6)");
+      return out;
+    }
+    bool scheduleOverflow = growth >= 25.0;
+    fail(diverged && scheduleOverflow ? "global-placement-throws:diverged-penalty-overflow" : "global-placement-throws",
+         r.what + " after " + std::to_string(steps) + " lower-bound steps (log10 penalty/cutoff = " + std::to_string(growth) +
+             ", log10 approximation distance = " + std::to_string(approx) + ", log10 cutoff distance = " + std::to_string(cutoff) + ")");
     return out;
   }
   double b = params.global.exportBlending;
@@ -143,7 +156,7 @@ static vf::Verdicts eval(const Spec &s, vf::Ctx &ctx) {
 
 int main(int argc, char **argv) {
   vf::Opts o = vf::parseOpts(argc, argv);
-  gThorough = o.thorough();
+  gThorough = o.thorough() && o.pass != "san";  // the secondary sanitizer pass of the thorough tier uses the quick alphabet
   vf::Check<Spec> c;
   c.property = "C06";
   c.level = "exploration";
